@@ -21,10 +21,10 @@ fn crash_cfg(prop: &str, seed: u64, index: u64) -> HistCfg {
         prop: prop.to_string(),
         seed,
         index,
-        profile: *rng.pick(&[Profile::Dirs, Profile::Dirs, Profile::Mixed, Profile::Fill]),
+        profile: *rng.pick(&[Profile::Dirs, Profile::Dirs, Profile::Mixed, Profile::Fill, Profile::Grow]),
         limits: (4, 4, 1),
         id_offset: 5000,
-        nops: 15 + rng.usize_below(70),
+        nops: 15 + rng.usize_below(90),
         two_parts: false,
         fat32: Some(fat32),
         max_spc: *rng.pick(&[1u32, 1, 2, 4]),
